@@ -53,7 +53,7 @@ ASSUMPTIONS = [
 ]
 BUDGET = {"quick": 150, "thorough": 900}
 
-PATHS = ["/etc/p", "/etc/q"]
+PATHS = ["/etc/p", "/etc//q"]     # the second path is spelled with a doubled slash: legal, and not what os.path.normpath would write
 OUTPUTS = ["", "a", "a\n", "a\nb"]
 RELOADS = ["", "r"]
 SAFES = [0, 1]
